@@ -127,6 +127,12 @@ fn lang(id: &str) -> Lang {
     }
 }
 
+/// (line comment leaders, first block comment delimiters, statement templates, header, footer) of a language
+pub fn line_leaders(id: &str) -> (&'static [&'static str], Option<(&'static str, &'static str)>, &'static [&'static str], &'static str, &'static str) {
+    let l = lang(id);
+    (l.line, l.block.first().copied(), l.stmts, l.header, l.footer)
+}
+
 const MARKERS: &[&str] = &["harper:ignore", "harper: ignore", "spellchecker:ignore", "spellchecker: ignore", "spell-checker:ignore", "spell-checker: ignore", "spellcheck:ignore", "spellcheck: ignore"];
 
 fn indent(r: &mut Rng) -> &'static str {
@@ -467,7 +473,8 @@ fn markdown_file(fe: &str, r: &mut Rng) -> Built {
             b.newline();
         }
         if git {
-            // no '#' anywhere in a commit body (headings would be cut: see the git_hash finding)
+            // no '#' in the blocks of a commit body (a heading opens a line with '#': for git that is a comment line
+            // and the parser cuts there); a mid-line '#' is generated below
             loop {
                 let save = (b.s.len(), b.n, b.words.len(), b.forbidden.len());
                 markdown_block(&mut b, r, true, false);
@@ -673,7 +680,7 @@ fn lhs_file(fe: &str, r: &mut Rng) -> Built {
             0 => {
                 // Haskell report 10.4: program lines start with '>' and are separated from text by blank lines;
                 // a bird block may open the file (there is no preceding line to be adjacent to)
-                let label = if b.n == 0 { "code_bird_first_line" } else { "code" };
+                let label = "code";
                 for _ in 0..r.range(1, 3) {
                     b.non(&format!("> {} = \"{} {}\"", r.s(IDS), r.s(B), r.s(A)), label);
                     b.newline();
